@@ -43,6 +43,8 @@ const (
 	KURead      = "uread"  // unsharded select
 	KUWrite     = "uwrite" // unsharded update
 	KUForUpdate = "ufu"    // unsharded select ... for update
+	KUBig       = "ubig"   // unsharded select whose backend reply is larger than 16 MiB (the proxy streams it)
+	KUMulti     = "umulti" // unsharded select answered with two result sets (SERVER_MORE_RESULTS_EXISTS); the proxy's parser rejects CALL
 	KSRead      = "sread"  // sharded select (Keys decide the slices)
 	KSWrite     = "swrite" // sharded update
 	KSForUpdate = "sfu"    // sharded select ... for update
@@ -362,6 +364,10 @@ func SQLFor(c Cmd, tag string, nslices int) string {
 		return fmt.Sprintf("update tu set v=%d where id=1 and tag='%s'", c.N%50, tag)
 	case KUForUpdate:
 		return fmt.Sprintf("select * from tu where id=%d and tag='%s' for update", c.N%50, tag)
+	case KUBig:
+		return fmt.Sprintf("select * from tu where id=%d and pad='big' and tag='%s'", c.N%50, tag)
+	case KUMulti:
+		return fmt.Sprintf("select * from tu where id=%d and pad='two' and tag='%s'", c.N%50, tag)
 	case KSRead:
 		return fmt.Sprintf("select * from ts where id in (%s) and tag='%s'", keys(), tag)
 	case KSWrite:
@@ -381,7 +387,7 @@ func SQLFor(c Cmd, tag string, nslices int) string {
 // IsStmt reports whether kind k is a tagged statement sent to backends.
 func IsStmt(k string) bool {
 	switch k {
-	case KURead, KUWrite, KUForUpdate, KSRead, KSWrite, KSForUpdate, KDropFlight:
+	case KURead, KUWrite, KUForUpdate, KUBig, KUMulti, KSRead, KSWrite, KSForUpdate, KDropFlight:
 		return true
 	}
 	return false
@@ -527,6 +533,7 @@ func runLive(c Case, opt Options, live *Live) *Trace {
 	arm := &armed{sessConns: map[ConnKey]bool{}, stallMs: c.StallMs}
 	for _, s := range cl.All() {
 		s.Fault = arm.hook(s)
+		s.Handler = streamedReplies
 	}
 	nsess := len(c.RWSplit)
 	if nsess == 0 {
@@ -780,6 +787,14 @@ func runLive(c Case, opt Options, live *Live) *Trace {
 			tr.HardDrops++
 		default:
 			setRes(s.c.Exec(st.SQL))
+			if (cmd.K == KUBig || cmd.K == KUMulti) && st.IOErr == "" {
+				// A streamed reply is recycled by the proxy after its last byte has been written, i.e. possibly after the
+				// client has read it. Commands of one session are handled one after the other, so a completed COM_PING
+				// round trip means that the statement is fully finished on the proxy's side.
+				if _, err := s.c.Ping(); err != nil {
+					st.IOErr = "sync ping: " + err.Error()
+				}
+			}
 		}
 		if st.Err != nil && opt.ProbeCloseOnErr > 0 && s.alive && (opt.ProbeCloseIf == nil || opt.ProbeCloseIf(st.Err.Message)) {
 			if waitEOF(s.c, opt.ProbeCloseOnErr) {
@@ -1048,6 +1063,28 @@ func SessionEvents(evs []fakemysql.Event, cls map[ConnKey]string) []fakemysql.Ev
 // IsTagged reports whether sql is a client statement of a history (it names the tag column).
 func IsTagged(sql string) bool {
 	return strings.Contains(sql, "tag='") || strings.Contains(sql, "`tag`=")
+}
+
+var bigCell = []byte(strings.Repeat("x", 2<<20))
+
+// streamedReplies is the backends' query handler: the two statement kinds whose reply the proxy cannot buffer and
+// forward as one result but streams through Session.continueConn.
+func streamedReplies(c *fakemysql.Conn, sql string) fakemysql.Reply {
+	one := func(name string) *fakemysql.ResultSet {
+		return &fakemysql.ResultSet{Cols: []fakemysql.Column{{Name: name, Type: fakemysql.TypeLongLong, Flags: 0x81, Charset: 63, Length: 1}}, Rows: [][][]byte{{[]byte("1")}}}
+	}
+	switch {
+	case strings.Contains(sql, "pad='big'"):
+		// 9 rows x 2 MiB: more than one 16 MiB chunk
+		return fakemysql.Reply{Result: &fakemysql.ResultSet{
+			Cols:   []fakemysql.Column{{Name: "pad", Type: fakemysql.TypeBlob, Charset: 63, Length: 1 << 24}},
+			NRows:  9,
+			RowGen: func(i int) [][]byte { return [][]byte{bigCell} },
+		}}
+	case strings.Contains(sql, "pad='two'"):
+		return fakemysql.Reply{Result: one("a"), More: []fakemysql.Reply{{Result: one("b")}}}
+	}
+	return fakemysql.Reply{Unhandled: true}
 }
 
 // HasTag reports whether sql carries the literal tag.
